@@ -14,7 +14,7 @@ from habutax import form as hform
 from habutax.forms import available_forms
 
 PID = 'C20'
-KINDS = ['ctrl-c', 'ctrl-c-at-retry', 'eof', 'absent-form', 'line-raises']
+KINDS = ['ctrl-c', 'ctrl-c-at-retry', 'eof', 'absent-form', 'line-raises', 'ctrl-c-while-solving']
 NAME_RE = re.compile(r'----\[ (\S+) \]----')
 
 
@@ -59,6 +59,8 @@ def _arm(f, state):
             state['fired'] = True
             if state['kind'] == 'line-raises':
                 raise Armed(f'line {f.name()} failed')
+            if state['kind'] == 'ctrl-c-while-solving':
+                raise KeyboardInterrupt()
             return values['zz_absent.1']
         return orig(inputs, values)
     f.value = value
@@ -75,7 +77,7 @@ def session(year, base, start, k, kind, halfset=None):
     """returns (errors, info)"""
     errs = []
     specs = _Specs(year)
-    state = dict(kind=kind if kind in ('absent-form', 'line-raises') else None, k=k, answers=0, fired=False)
+    state = dict(kind=kind if kind in ('absent-form', 'line-raises', 'ctrl-c-while-solving') else None, k=k, answers=0, fired=False)
     given = {}        # answers accepted before the interruption
     interrupted = {'at': None}
 
@@ -176,7 +178,7 @@ def run(tier):
     run = runner.Run(PID, tier, 'fault_enumeration',
                      'sessions of the real habutax.solve(args) with --prompt-missing --writeback-input on base returns, from '
                      '{no file, empty file, half the inputs}; every prompt index k x {Ctrl-C, Ctrl-C at the invalid-input re-prompt, '
-                     'EOF, unsupported form reached after k answers, a line definition raising after k answers}; then a second run; '
+                     'EOF, unsupported form reached after k answers, a line definition raising after k answers, Ctrl-C arriving while a line is being computed after k answers}; then a second run; '
                      'distinct = (year, base, start, kind, k) sessions in which the interruption actually happened')
     if tier == 'quick':
         sel = [(2023, 'B0-single-wage'), (2023, 'B6-nc'), (2022, 'B4-schedule1'), (2021, 'B0-single-wage')]
